@@ -184,6 +184,22 @@ static inline std::string gen_doc(Rng & r, const DocOpts & o) {
 	return d;
 }
 
+// a document with many long abbreviation / glossary terms: the automatic-search trie needs several hundred nodes (more than its initial capacity)
+static inline std::string gen_glossary_doc(Rng & r) {
+	std::string d, defs;
+	int n = (int)r.range(20, 50);
+	for (int i = 0; i < n; i++) {
+		std::string term;
+		int len = (int)r.range(10, 18);
+		for (int j = 0; j < len; j++) term.push_back((char)('a' + r.below(26)));
+		term += std::to_string(i);
+		bool abbr = r.chance(1, 2);
+		d += "Uses " + std::string(abbr ? "[>" : "[?") + term + "] and " + term + " again, " + gen_words(r, 2) + ".\n\n";
+		defs += std::string(abbr ? "[>" : "[?") + term + "]: " + gen_words(r, 3) + "\n\n";
+	}
+	return d + defs;
+}
+
 // a document that needs many tokens (several pool slabs)
 static inline std::string gen_big_doc(Rng & r, int paragraphs) {
 	std::string d;
